@@ -58,6 +58,10 @@ class PolynomialApproximationSpace(ApproximationSpace):
 
         """
         self.degree = degree
+        self.exponents = [
+            (i, j) for i in range(degree + 1) for j in range(degree + 1 - i)
+        ]
+        """Exponents (i, j), i + j <= degree, of the basis functions x^i * y^j."""
 
     @property
     def size(self) -> int:
@@ -75,7 +79,7 @@ class PolynomialApproximationSpace(ApproximationSpace):
             np.ndarray: Value of the basis function.
 
         """
-        i, j = divmod(k, self.degree + 1)
+        i, j = self.exponents[k]
         return x[..., 0] ** i * x[..., 1] ** j
 
 
